@@ -1,7 +1,7 @@
 (* Extraction of the executable C05 models (ExtrOcamlBasic only). *)
 From Coq Require Import ExtrOcamlBasic.
 From Coq Require Extraction.
-From LJT Require Import lib.Words model.SimdColor model.SimdSample model.SimdQuant.
+From LJT Require Import lib.Words model.SimdColor model.SimdSample model.SimdQuant model.SimdDct.
 Extraction Language OCaml.
 Extraction "x_c05.ml"
   asm_rgb_ycc c_rgb_ycc asm_rgb_y c_rgb_y jccolor_sse2_consts jccolor_avx2_consts jcgray_sse2_consts jcgray_avx2_consts
@@ -9,4 +9,5 @@ Extraction "x_c05.ml"
   c_jdcolor_tabs c_jdmerge_tabs
   asm_h2v1_downsample c_h2v1_downsample asm_h2v2_downsample c_h2v2_downsample jcsample_sse2_consts jcsample_avx2_consts
   asm_h2v1_fancy c_h2v1_fancy asm_h2v2_fancy c_h2v2_fancy jdsample_sse2_consts jdsample_avx2_consts flat2
-  compute_reciprocal c_quantize asm_quantize_sse2 asm_quantize_avx2 s16 w16.
+  compute_reciprocal c_quantize asm_quantize_sse2 asm_quantize_avx2 s16 w16
+  c_fdct_ifast asm_fdct_ifast.
